@@ -516,8 +516,18 @@ pub fn handle(st: &mut State, req: &Value) -> Value {
                 Err(e) => return err_variant(&e),
             };
             if let Err(e) = first.write_metadata(value.clone()) {
+                // the write was refused: what does the next request of this build sequence see? (the previous value, if there was one)
                 let mut v = err_variant(&e);
                 v["write_err"] = json!(true);
+                *seen.borrow_mut() = None;
+                match request() {
+                    Ok(r) => {
+                        v["after_state"] = state_json(&r.state);
+                        v["after_seen"] = json!(format!("{:?}", seen.borrow()));
+                        v["after_seen_some"] = json!(seen.borrow().is_some());
+                    }
+                    Err(e2) => v["after_err"] = json!(format!("{e2:?}")),
+                }
                 return v;
             }
             let text = std::fs::read_to_string(ctx.layers_dir.join(format!("{}.toml", name.as_str()))).unwrap_or_default();
